@@ -224,6 +224,9 @@ def run(ctx):
         tlc.cleanup(res.workdir)
     regular_polygons(ctx, rnd)
     translation_checks(ctx, rnd)
+    if ctx.tier != 'quick':
+        from . import c19
+        c19.proofs(ctx, modules=('RotationLaws',))          # rotation algebra for all integers (TLAPS)
     # boxes that did not shift exactly must be aligned cases according to the model
     if events_aligned:
         from .c01 import validate_events as ve
